@@ -65,7 +65,8 @@ def usage_cells():
         "force+fallback": ["--force-dot-license", "--fallback-dot-license"], "force+skip-unrecognised": ["--force-dot-license", "--skip-unrecognised"],
         "fallback+skip-unrecognised": ["--fallback-dot-license", "--skip-unrecognised"], "style+skip-unrecognised": ["--style", "python", "--skip-unrecognised"],
         "unknown-template": ["--template", "does-not-exist"], "unknown-style": ["--style", "nosuchstyle"], "bad-prefix": ["--copyright-prefix", "nosuch"],
-        "bad-expression": ["--license", "MIT AND AND"], "empty-expression": ["--license", ""], "blank-expression": ["--license", "  "],
+        "bad-expression": ["--license", "MIT AND AND"], "empty-expression": ["--license", ""], "blank-expression": ["--license", "  "], "empty-contributor": ["--contributor", ""],
+        "blank-contributor": ["--contributor", " \t"], "empty-second-copyright": ["--copyright", ""],
     }.items():
         yield {"name": name, "argv": base + extra, "bad": None, "pos": 0}
     yield {"name": "nothing-requested", "argv": ["--year", "2020"], "bad": None, "pos": 0}
